@@ -131,11 +131,15 @@ def buildTable (enums : List Enum) (t : TableBp) : B Table := do
          columns := cols, indexes := idx, note := note, headerColor := t.headerColor,
          comment := t.comment, props := t.props.getD [] }
 
-def buildEnum (e : EnumBp) : B Enum := do
-  let items ← e.items.mapM fun i => do
-    let note ← buildNote i.note
-    pure ({ name := i.name, note := note, comment := i.comment } : EnumItem)
-  pure { name := e.name, schema := e.schema, items := items, comment := e.comment }
+def noteText : Option Str → Str
+  | none => []
+  | some raw => norm raw
+
+def buildEnumItem (i : EnumItemBp) : EnumItem :=
+  { name := i.name, note := noteText i.note, comment := i.comment }
+
+def buildEnum (e : EnumBp) : B Enum :=
+  pure { name := e.name, schema := e.schema, items := e.items.map buildEnumItem, comment := e.comment }
 
 /-- keys of the computed `table_dict` -/
 def hasKey (tables : List Table) (key : Str) : Bool :=
@@ -206,21 +210,23 @@ def buildRef (db : Db) (r : RefBp) : B Ref := do
          name := match r.name with | some [] => none | x => x,
          comment := r.comment, onUpdate := r.onUpdate, onDelete := r.onDelete, inlineFlag := r.inline }
 
+/-- schema and name of a group item: `components if len(components) == 2 else ('public', components[0])` -/
+def groupItemName (tn : Str) : Str × Str :=
+  match splitDot tn with
+  | [s, n] => (s, n)
+  | c :: _ => (PyDBML.lit "public", c)
+  | [] => (PyDBML.lit "public", [])
+
+/-- one item of a group body: located, refused when the table is already listed -/
+def groupStep (tables : List Table) (acc : List Nat) (tn : Str) : B (List Nat) := do
+  let i ← locateTable tables (groupItemName tn).1 (groupItemName tn).2
+  if acc.contains i then throw (.lib "ValidationError")
+  else pure (acc ++ [i])
+
 /-- `TableGroupBlueprint.build` + `add_table_group` -/
 def buildGroup (db : Db) (g : GroupBp) : B Group := do
-  let items ← g.items.foldlM (fun (acc : List Nat) (tn : Str) => do
-      let comps := splitDot tn
-      let (schema, name) := match comps with
-        | [s, n] => (s, n)
-        | c :: _ => (PyDBML.lit "public", c)
-        | [] => (PyDBML.lit "public", [])
-      let i ← locateTable db.tables schema name
-      if acc.contains i then throw (.lib "ValidationError")
-      pure (acc ++ [i])) []
-  let note ← match g.note with
-    | some raw => pure (some (norm raw))
-    | none => pure none
-  pure { name := g.name, items := items, comment := g.comment, note := note, color := g.color }
+  let items ← g.items.foldlM (groupStep db.tables) []
+  pure { name := g.name, items := items, comment := g.comment, note := g.note.map norm, color := g.color }
 
 /-- the reference blueprints in the order `PyDBMLParser.refs` holds them: a table contributes its
     inline references (column order) at its position, a `Ref` element itself. -/
@@ -232,32 +238,40 @@ def refBlueprints (es : List Elem) : List RefBp :=
     | .ref r => [r]
     | _ => []
 
+def enumBps (es : List Elem) : List EnumBp := es.filterMap fun e => match e with | .enum x => some x | _ => none
+def tableBps (es : List Elem) : List TableBp := es.filterMap fun e => match e with | .table x => some x | _ => none
+def groupBps (es : List Elem) : List GroupBp := es.filterMap fun e => match e with | .group x => some x | _ => none
+def stickyBps (es : List Elem) : List StickyBp := es.filterMap fun e => match e with | .sticky x => some x | _ => none
+def projectBp (es : List Elem) : Option ProjectBp :=
+  (es.filterMap fun e => match e with | .project x => some x | _ => none).getLast?
+
+def enumStep (acc : List Enum) (e : EnumBp) : B (List Enum) := do addEnum acc (← buildEnum e)
+def tableStep (enums : List Enum) (acc : List Table) (t : TableBp) : B (List Table) := do
+  addTable acc (← buildTable enums t)
+def groupAddStep (db0 : Db) (acc : List Group) (g : GroupBp) : B (List Group) := do
+  let gr ← buildGroup db0 g
+  if acc.any (·.name == gr.name) then throw (.lib "DatabaseValidationError")
+  else pure (acc ++ [gr])
+def refStep (db1 : Db) (acc : List Ref) (rb : RefBp) : B (List Ref) := do
+  let r ← buildRef db1 rb
+  if acc.any (fun m => refEq { db1 with refs := acc } r m) then throw (.lib "DatabaseValidationError")
+  else pure (acc ++ [r])
+def buildSticky (s : StickyBp) : Sticky := { name := s.name, text := norm s.text }
+def buildProject : Option ProjectBp → B (Option Project)
+  | some p => do
+    let note ← buildNote p.note
+    pure (some ({ name := p.name, items := p.items, note := note, comment := p.comment } : Project))
+  | none => pure none
+
 /-- `build_database` -/
 def buildDatabase (allowProps : Bool) (es : List Elem) : B Db := do
-  let enumBps := es.filterMap fun e => match e with | .enum x => some x | _ => none
-  let tableBps := es.filterMap fun e => match e with | .table x => some x | _ => none
-  let groupBps := es.filterMap fun e => match e with | .group x => some x | _ => none
-  let stickyBps := es.filterMap fun e => match e with | .sticky x => some x | _ => none
-  let projectBp := (es.filterMap fun e => match e with | .project x => some x | _ => none).getLast?
-  let enums ← enumBps.foldlM (fun acc e => do addEnum acc (← buildEnum e)) []
-  let tables ← tableBps.foldlM (fun acc t => do addTable acc (← buildTable enums t)) []
+  let enums ← (enumBps es).foldlM enumStep []
+  let tables ← (tableBps es).foldlM (tableStep enums) []
   let db0 : Db := { tables := tables, enums := enums, allowProps := allowProps }
-  let groups ← groupBps.foldlM (fun (acc : List Group) g => do
-      let gr ← buildGroup db0 g
-      if acc.any (·.name == gr.name) then throw (.lib "DatabaseValidationError")
-      pure (acc ++ [gr])) []
-  let sticky ← stickyBps.mapM fun s => do
-    pure ({ name := s.name, text := norm s.text } : Sticky)
-  let project ← match projectBp with
-    | some p => do
-      let note ← buildNote p.note
-      pure (some ({ name := p.name, items := p.items, note := note, comment := p.comment } : Project))
-    | none => pure none
-  let db1 : Db := { db0 with groups := groups, sticky := sticky, project := project }
-  let refs ← (refBlueprints es).foldlM (fun (acc : List Ref) rb => do
-      let r ← buildRef db1 rb
-      if acc.any (fun m => refEq { db1 with refs := acc } r m) then throw (.lib "DatabaseValidationError")
-      pure (acc ++ [r])) []
+  let groups ← (groupBps es).foldlM (groupAddStep db0) []
+  let project ← buildProject (projectBp es)
+  let db1 : Db := { db0 with groups := groups, sticky := (stickyBps es).map buildSticky, project := project }
+  let refs ← (refBlueprints es).foldlM (refStep db1) []
   pure { db1 with refs := refs }
 
 /-- result of `PyDBML(text, allow_properties=…)`: the content, or the error class -/
